@@ -138,10 +138,10 @@ func init() {
 		"sequential part only: concurrent multi-key gets in opposite orders are covered by C03's schedule exploration",
 	}, orcaAssumptions...),
 		Quick: []Job{{Pkg: "./zz_verif/orcah", Func: "ZZLockFault", Params: map[string]int64{"concurrency": 1, "getkeys": 2, "failpositions": 3},
-			Reach: []string{"loop-returned", "second-parse", "next-commands-done"},
+			Reach:  []string{"loop-returned", "second-parse", "next-commands-done"},
 			Bounds: "Locked(L1Only|L1L2|L1L2Batch), single/multi reader, 2 stripes; 9 command kinds, gets of 1-2 keys; fault at handler call 0 or 1 of L1 or L2 (or none), kinds I/O error / app error / panic"}},
 		Thorough: []Job{{Pkg: "./zz_verif/orcah", Func: "ZZLockFault", Params: map[string]int64{"getkeys": 3, "failpositions": 5}, Name: "ZZLockFault-deep",
-			Reach: []string{"loop-returned", "second-parse", "next-commands-done"},
+			Reach:  []string{"loop-returned", "second-parse", "next-commands-done"},
 			Bounds: "as quick, plus 1 and 2 stripes, gets of 1-3 keys, fault at handler call 0..3"}},
 	})
 
@@ -254,8 +254,8 @@ func init() {
 		},
 		Thorough: func() []Job {
 			js := []Job{
-			{Pkg: "./zz_verif/orcah", Func: "ZZLockedConcurrent", Name: "disjoint-keys-get", Params: map[string]int64{"nk": 2, "disjoint": 1, "a.cmd": 8}, Sched: true, SchedKinds: "rt,lock,unlock", SchedSkipPkgs: "github.com/netflix/rend/metrics", Reach: []string{"both-done"},
-				Bounds: "the same with A getting key 0"},
+				{Pkg: "./zz_verif/orcah", Func: "ZZLockedConcurrent", Name: "disjoint-keys-get", Params: map[string]int64{"nk": 2, "disjoint": 1, "a.cmd": 8}, Sched: true, SchedKinds: "rt,lock,unlock", SchedSkipPkgs: "github.com/netflix/rend/metrics", Reach: []string{"both-done"},
+					Bounds: "the same with A getting key 0"},
 			}
 			for k := int64(1); k < 8; k++ {
 				js = append(js, Job{Pkg: "./zz_verif/orcah", Func: "ZZLockedConcurrent", Name: "disjoint-keys-a" + itoa(k), Params: map[string]int64{"nk": 2, "disjoint": 1, "a.cmd": k}, Sched: true, SchedKinds: "rt,lock,unlock", SchedSkipPkgs: "github.com/netflix/rend/metrics", Reach: []string{"both-done"}, Bounds: "disjoint keys, first connection's command fixed per job (add replace append prepend delete touch gat)"})
@@ -316,7 +316,11 @@ func init() {
 			w7("ZZBinaryDecode", "binary-k2-d2", map[string]int64{"keylen": 2, "datalen": 2}, two, "24 request kinds x 4 followers x every cut offset; key 2 bytes, data 2 bytes"),
 			w7("ZZTextDecode", "text-k2-d2-3digits", map[string]int64{"keylen": 2, "datalen": 2, "digits": 3}, two, "13 command kinds x 3 followers x every cut offset; key 2 bytes, data 2 bytes, 3-digit numeric fields"),
 			w7("ZZDisambiguate", "", nil, []string{"disambiguated"}, "all 256 first bytes"),
-			func() Job { j := w7("ZZTextLongLine", "text-line-over-4096", nil, two, "a text get of ~680 keys whose command line is just over the 4096-byte read buffer (a few key bytes symbolic), cut nowhere / at byte 4096 / before the last byte, followed by a set"); j.LoopCap = 4000; return j }(),
+			func() Job {
+				j := w7("ZZTextLongLine", "text-line-over-4096", nil, two, "a text get of ~680 keys whose command line is just over the 4096-byte read buffer (a few key bytes symbolic), cut nowhere / at byte 4096 / before the last byte, followed by a set")
+				j.LoopCap = 4000
+				return j
+			}(),
 		},
 		Thorough: []Job{
 			w7("ZZBinaryDecode", "binary-k250-d5", map[string]int64{"keylen": 250, "datalen": 5}, two, "key 250 bytes, data 5 bytes"),
